@@ -488,6 +488,12 @@ def grid_case(kind, defaults):
     if not defaults:
       c0 = w.get("cutoff") if isinstance(w.get("cutoff"), float) and 1e-3 < w.get("cutoff") < 1e4 else 6.5
       c1 = w.get("cutoff_rho") if isinstance(w.get("cutoff_rho"), float) and 1e-3 < w.get("cutoff_rho") < 1e4 else 42.0
+      if kind == "pair":
+        # first in a fresh process (class or module level state of this one may hold values of the symbolic run)
+        c2_ = w.get("cutoff2") if isinstance(w.get("cutoff2"), float) and 1e-3 < w.get("cutoff2") < 1e4 else 2.5 * c0
+        r_ = common.in_fresh_process("checks.c11", "replay_grid_pair", c0, c2_, NR)
+        if r_[0]:
+          return (True, r_[1], r_[2])
       bad = []
       if kind == "pair":
         tab = pt.LAMMPS_PairTabulation([], c0, NR)
@@ -520,6 +526,12 @@ def grid_case(kind, defaults):
         bad.append("separation grid for nr=%d cutoff=%r is %r" % (NR, c0, rs))
       if abs(tab.dr - c0 / (NR - 1)) > 1e-15 * c0:
         bad.append("dr=%r" % tab.dr)
+      if not bad and kind == "pair":
+        # module or class level state may hold values of the symbolic run: the two-object sequence once more in a fresh process
+        c2_ = w.get("cutoff2") if isinstance(w.get("cutoff2"), float) and 1e-3 < w.get("cutoff2") < 1e4 else 2.5 * c0
+        r_ = common.in_fresh_process("checks.c11", "replay_grid_pair", c0, c2_, NR)
+        if r_[0]:
+          return (True, r_[1], r_[2])
       return (bool(bad), "; ".join(bad) or "grids agree", dict(kind="grid", cutoff=c0, cutoff_rho=c1))
     if after:
       r_ = common.in_fresh_process("checks.c11", "replay_defaults_after", kind)
@@ -624,6 +636,22 @@ def cross_grid_case():
   res["negatives"] += 1
   res["negatives_ok"] += 1
   return res
+
+
+def replay_grid_pair(c0, c2, nr):
+  """fresh process: two GULP tabulations with the same row count and different cutoffs, one after the other"""
+  import io as _io
+  from atsim.potentials import Potential
+  from atsim.potentials import pair_tabulation as pt
+  from readers import pairtables
+  bad = []
+  for c_ in (c0, c2):
+    out = _io.StringIO()
+    pt.GULP_PairTabulation([Potential("A", "B", lambda r: 1.0 + r)], c_, nr).write(out)
+    rr = [r for (_e, r) in pairtables.read_gulp_spline(out.getvalue())[0]["rows"]]
+    if len(rr) != nr or any(abs(x - i * c_ / (nr - 1)) > 1e-9 * c_ for i, x in enumerate(rr)):
+      bad.append("GULP tabulation with nr=%d and cutoff=%r (written %s in this process) is on the grid %r" % (nr, c_, "first" if c_ == c0 else "second", rr))
+  return [bool(bad), "; ".join(bad) or "both tables are on their own grids", dict(kind="grid_two_objects", cutoffs=[c0, c2], nr=nr)]
 
 
 def replay_defaults_after(kind):
